@@ -169,6 +169,85 @@ theorem const_vector_sigma (cov : Cov ℝ) (x : Mat ℝ n d) (y : Mat ℝ n c) (
       | (cases getL cov x jitter Option.none <;> simp only [hsf, sigmaToYCovFactor] <;> rfl)
       | (cases sigmaFactor (Sigma.scalar σ : Sigma ℝ n) <;> rfl)
 
+/-! ### the inducing-point (DTC) predictor of `gp_type` sparse_cholesky / fixed -/
+
+/-- **Affine (DTC).** The same law for the predictor built on landmarks. -/
+theorem affine_dtc {m : Nat} {cov : Cov ℝ} {x : Mat ℝ n d} {xu : Mat ℝ m d} {y y' : Mat ℝ n c} {mu a b : ℝ}
+    {sigma : Sigma ℝ m} {jitter : ℝ} {ycf : Option (AnyMat ℝ)} {yIsMean : Bool} {s : CondState ℝ m d c}
+    (h : lmCondInit cov x xu y mu sigma jitter ycf yIsMean false = .ok s)
+    (hy' : ∀ i k, i < n → k < c → y'.el i k = a * y.el i k + b) :
+    ∃ s', lmCondInit cov x xu y' (a * mu + b) sigma jitter ycf yIsMean false = .ok s'
+      ∧ ∀ (xq : List ℝ) (col : Nat), col < c → s'.mean1 xq col = a * s.mean1 xq col + b := by
+  unfold lmCondInit at h ⊢
+  split at h
+  · cases h
+  · rename_i L hL
+    simp only at h ⊢
+    split at h
+    · cases h
+    · rename_i LLB hLLB
+      split at h
+      · cases h
+      · rename_i LB hLB
+        simp only [Bool.not_false, if_true] at h ⊢
+        have hs := (Except.ok.inj h).symm; subst hs
+        refine ⟨_, rfl, ?_⟩
+        intro xq col hcol
+        have hres : ∀ i k, i < n → k < c →
+            (residual y' (a * mu + b)).el i k = a * (residual y mu).el i k := by
+          intro i k hi hk
+          simp only [residual, el_ofFn, hi, hk, and_self, if_true, hy' i k hi hk]; ring
+        have hw := lmWeights_smul L LB (solveLowerM L (gram cov xu x)) a (residual y mu)
+          (residual y' (a * mu + b)) hres
+        simp only [CondState.mean1, nsum_eq_sum]
+        have : ∑ j ∈ range m, cov.k xq (xu.row j)
+              * (lmWeights L LB (solveLowerM L (gram cov xu x)) (residual y' (a * mu + b))).el j col
+            = a * ∑ j ∈ range m, cov.k xq (xu.row j)
+              * (lmWeights L LB (solveLowerM L (gram cov xu x)) (residual y mu)).el j col := by
+          rw [Finset.mul_sum]
+          apply Finset.sum_congr rfl
+          intro j hj
+          rw [hw j col (Finset.mem_range.mp hj) hcol]; ring
+        rw [this]; ring
+
+/-- **Column independence (DTC).** -/
+theorem columns_independent_dtc {m c' : Nat} {cov : Cov ℝ} {x : Mat ℝ n d} {xu : Mat ℝ m d} {y : Mat ℝ n c}
+    {y' : Mat ℝ n c'} {mu : ℝ} {sigma : Sigma ℝ m} {jitter : ℝ} {ycf : Option (AnyMat ℝ)} {yIsMean : Bool}
+    {s : CondState ℝ m d c} {s' : CondState ℝ m d c'}
+    (h : lmCondInit cov x xu y mu sigma jitter ycf yIsMean false = .ok s)
+    (h' : lmCondInit cov x xu y' mu sigma jitter ycf yIsMean false = .ok s')
+    (j j' : Nat) (hj : j < c) (hj' : j' < c') (hcol : ∀ i, i < n → y.el i j = y'.el i j') :
+    ∀ xq : List ℝ, s.mean1 xq j = s'.mean1 xq j' := by
+  unfold lmCondInit at h h'
+  split at h
+  · cases h
+  · rename_i L hL
+    try rw [hL] at h'
+    simp only at h h'
+    split at h
+    · cases h
+    · rename_i LLB hLLB
+      try rw [hLLB] at h'
+      simp only at h'
+      split at h
+      · cases h
+      · rename_i LB hLB
+        try rw [hLB] at h'
+        simp only [Bool.not_false, if_true] at h h'
+        have hs := (Except.ok.inj h).symm; subst hs
+        have hs' := (Except.ok.inj h').symm; subst hs'
+        intro xq
+        have hres : ∀ i, i < n → (residual y mu).el i j = (residual y' mu).el i j' := by
+          intro i hi
+          simp only [residual, el_ofFn, hi, hj, hj', and_self, if_true, hcol i hi]
+        have hw := lmWeights_col L LB (solveLowerM L (gram cov xu x)) (residual y mu) (residual y' mu)
+          j j' hj hj' hres
+        simp only [CondState.mean1]
+        congr 1
+        apply nsum_congr
+        intro t ht
+        rw [hw t ht]
+
 /-! ### non-vacuity -/
 example : ∀ i k, i < 1 → k < 1 →
     (Mat.ofFn (n := 1) (m := 1) fun _ _ => (2 * 3 + 1 : ℝ)).el i k
